@@ -348,7 +348,7 @@ impl Prop for C18 {
         true
     }
     fn cases(tier: Tier) -> u64 {
-        tier.pick(20_000, 300_000)
+        tier.pick(20_000, 200_000)
     }
     fn strategy(_tier: Tier) -> BoxedStrategy<Case> {
         let text = (
